@@ -302,6 +302,44 @@ func c16ArgLists() []string {
 	return out
 }
 
+// c16NestedPrograms: the same method looked up on two receivers within one expression -- nested in its own argument list,
+// side by side in a list, or held in a match binding while the other lookup happens. Each call acts on its own receiver.
+func c16NestedPrograms() []*progCase {
+	setup := []Stmt{
+		Ex(Asg("=", V("s1"), S("a,b;c"))), Ex(Asg("=", V("s2"), S(";|,"))), Ex(Asg("=", V("n1"), N("2.5"))), Ex(Asg("=", V("n2"), Un("-", N("7.5")))),
+		Ex(Asg("=", V("o1"), &ObjLit{Keys: []string{"id", "x"}, Vals: []Expr{N("7"), S("X")}})), Ex(Asg("=", V("o2"), &ObjLit{Keys: []string{"key"}, Vals: []Expr{S("id")}})),
+	}
+	call := func(recv Expr, m string, args ...Expr) Expr { return CallE(Mem(recv, m), args...) }
+	held := func(recv Expr, m string, other Expr, args ...Expr) Expr {
+		return &MatchExpr{Subj: Mem(recv, m), Cases: []MatchCase{{Pats: []Expr{V("f")}, Body: Arr_(other, CallE(V("f"), args...))}}}
+	}
+	exprs := []Expr{
+		call(V("s1"), "split", Idx(call(V("s2"), "split", S("|")), N("1"))),
+		call(V("s1"), "split", Idx(call(V("s2"), "split", S("|")), N("0"))),
+		call(call(V("s1"), "upper"), "split", call(call(V("s2"), "lower"), "upper")),
+		Arr_(call(V("s1"), "upper"), call(V("s2"), "upper"), call(V("s1"), "lower"), call(V("s2"), "length"), call(V("s1"), "length")),
+		Bin("+", call(V("s1"), "length"), call(V("s2"), "length")),
+		Bin("+", call(V("s1"), "upper"), call(S("x"), "upper")),
+		call(V("o1"), "pluck", Mem(call(V("o2"), "pluck", S("key")), "key")),
+		Arr_(call(V("o1"), "length"), call(V("o2"), "length"), call(V("o1"), "pluck", S("x")), call(V("o2"), "pluck", S("x"))),
+		Arr_(call(V("n1"), "floor"), call(V("n2"), "floor"), call(V("n1"), "ceil"), call(V("n2"), "ceil"), call(V("n1"), "round"), call(V("n2"), "round")),
+		Bin("+", call(V("n1"), "round"), call(V("n2"), "round")),
+		held(V("s1"), "upper", call(V("s2"), "upper")),
+		held(V("s1"), "split", call(V("s2"), "split", S("|")), S(",")),
+		held(V("s1"), "length", call(V("s2"), "length")),
+		held(V("o1"), "pluck", call(V("o2"), "pluck", S("key")), S("id")),
+		held(V("o1"), "length", call(V("o2"), "length")),
+		held(V("n1"), "floor", call(V("n2"), "floor")),
+		held(V("n1"), "round", call(V("n2"), "ceil")),
+	}
+	var out []*progCase
+	for _, e := range exprs {
+		body := append(append([]Stmt{}, setup...), Ex(Asg("=", V("r"), e)), Pr(V("r")), Pr(V("s1"), V("s2"), V("n1"), V("n2"), V("o1"), V("o2")))
+		out = append(out, &progCase{P: &Program{Rules: []*Rule{{Kind: "BEGIN", Body: Blk(body...)}}}})
+	}
+	return out
+}
+
 func c16Kinds(c *fw.Ctx, prog string) *fw.Violation {
 	s := drive.Spec{Program: prog, Files: []drive.File{{Name: "in.json", Data: `{"k":[1]}`}}}
 	o := run(c, s)
@@ -336,7 +374,7 @@ func init() {
 		ID: "C16",
 		Rule: "all strings of length <= L over {a,B,',',blank,é,ß} x all separators of length <= 2 for split (with length/upper/lower on all strings); the double sweep plus every k+{0,.25,.5,.75} for floor/ceil/round; " +
 			"40 objects with keys within {a,b,c} x all key lists of length <= 3 over {a,b,z} for pluck (result, original unchanged, sharing, freshness); all strings of length <= 4 over {0,1,5,.,e,-,+,x,blank} for num(); " +
-			"every method name x 10 receiver kinds x 21 argument lists and the builtins for the value-or-runtime-error rule; oracle: reference functions of DESIGN.md 3.16 (whose split output is asserted to satisfy the join / no-separator laws); " +
+			"17 expressions that look one method up on two receivers (nested in its own arguments, side by side, held in a match binding); every method name x 10 receiver kinds x 21 argument lists and the builtins for the value-or-runtime-error rule; oracle: reference functions of DESIGN.md 3.16 (whose split output is asserted to satisfy the join / no-separator laws); " +
 			"non-trivial = splits into >= 2 pieces, halves, strict numerals",
 		Plan: func(t fw.Tier) int { return U },
 		Bound: func(t fw.Tier) string {
@@ -377,6 +415,12 @@ func init() {
 					}
 				}
 				rec(nil)
+			}
+			if u == 0 {
+				for i, pc := range c16NestedPrograms() {
+					pc, i := pc, i
+					c.Do(func() any { return c16Spec{Form: "nested", Lo: i, Prog: pc.source()} }, func() *fw.Violation { v, _, _ := pc.check(c); return v })
+				}
 			}
 			n := 0
 			progs := func(f func(prog string)) {
@@ -421,6 +465,9 @@ func init() {
 				return c16Num(c, numStrs[s.Lo:s.Hi])
 			case "pluck":
 				return c16Pluck(c, s.Obj, s.Keys)
+			case "nested":
+				v, _, _ := c16NestedPrograms()[s.Lo].check(c)
+				return v
 			}
 			return c16Kinds(c, s.Prog)
 		},
